@@ -449,8 +449,44 @@ func runC05(c *mc.Ctx) {
 		}
 		// scalars
 		n := ref.SecN
-		for _, k := range []*big.Int{big.NewInt(0), big.NewInt(1), new(big.Int).Sub(n, big.NewInt(1)), n, new(big.Int).Add(n, big.NewInt(1)),
-			new(big.Int).Sub(new(big.Int).Lsh(big.NewInt(1), 256), big.NewInt(1))} {
+		scal := []*big.Int{big.NewInt(0), big.NewInt(1), new(big.Int).Sub(n, big.NewInt(1)), n, new(big.Int).Add(n, big.NewInt(1)),
+			new(big.Int).Sub(new(big.Int).Lsh(big.NewInt(1), 256), big.NewInt(1))}
+		// the comparison with n done limb by limb: scalars that differ from n in ONE limb only (that limb
+		// zero, all ones, one less, one more) for limb widths of 8, 16, 32 and 64 bits, n +- 2^k and
+		// 2^256 - 2^k for every k - above n in some limbs and below it in others
+		{
+			two256 := new(big.Int).Lsh(big.NewInt(1), 256)
+			seen := map[string]bool{}
+			addS := func(v *big.Int) {
+				if v.Sign() >= 0 && v.Cmp(two256) < 0 && !seen[v.String()] {
+					seen[v.String()] = true
+					scal = append(scal, v)
+				}
+			}
+			for k := uint(0); k < 256; k++ {
+				pk := new(big.Int).Lsh(big.NewInt(1), k)
+				addS(new(big.Int).Add(n, pk))
+				addS(new(big.Int).Sub(n, pk))
+				addS(new(big.Int).Sub(two256, pk))
+			}
+			for _, wd := range []uint{8, 16, 32, 64} {
+				mask := new(big.Int).Sub(new(big.Int).Lsh(big.NewInt(1), wd), big.NewInt(1))
+				for pos := uint(0); pos < 256; pos += wd {
+					m := new(big.Int).Lsh(mask, pos)
+					cleared := new(big.Int).AndNot(n, m)
+					limb := new(big.Int).Rsh(new(big.Int).And(n, m), pos)
+					addS(cleared)
+					addS(new(big.Int).Or(cleared, m))
+					for _, d := range []int64{-1, 1} {
+						l2 := new(big.Int).Add(limb, big.NewInt(d))
+						if l2.Sign() >= 0 && l2.Cmp(mask) <= 0 {
+							addS(new(big.Int).Or(cleared, new(big.Int).Lsh(l2, pos)))
+						}
+					}
+				}
+			}
+		}
+		for _, k := range scal {
 			m := append([]byte{}, f...)
 			m[45] = 0
 			kb := k.Bytes()
@@ -484,7 +520,16 @@ func runC05(c *mc.Ctx) {
 			}
 		}
 		// lengths
-		for _, L := range []int{0, 4, 77, 79, 80, 81} {
+		lensP := []int{0, 4, 77, 79, 80, 81}
+		if p[0] == bases[0][0] && string(p) == string(bases[0]) { // every payload length 0..700 for the first base key (78 + 256 and 78 + 512 lie inside)
+			lensP = lensP[:0]
+			for L := 0; L <= 700; L++ {
+				if L != 78 {
+					lensP = append(lensP, L)
+				}
+			}
+		}
+		for _, L := range lensP {
 			// payload of L bytes + checksum
 			var pl []byte
 			if L <= 78 {
@@ -493,6 +538,10 @@ func runC05(c *mc.Ctx) {
 				pl = append(append([]byte{}, p...), make([]byte, L-78)...)
 			}
 			raws = append(raws, c05Raw{Hex: mc.Hex(append(pl, 0, 0, 0, 0)), FixSum: true, Why: "wrong length"})
+			if L > 78 { // ... and with the checksum of the first 78 bytes at the end
+				ck := ref.DoubleSHA256(pl[:78])
+				raws = append(raws, c05Raw{Hex: mc.Hex(append(append([]byte{}, pl...), ck[:4]...)), Why: "wrong length, checksum over the first 78 bytes"})
+			}
 		}
 		// leading ones
 		raws = append(raws, c05Raw{Hex: mc.Hex(f), Ones: 1, Why: "extra leading 1"})
